@@ -20,6 +20,9 @@ pub struct Case {
     /// Per joint the earlier pair may share one limit, both or none with the final one.
     #[serde(default)]
     pub earlier: Option<([f64; 6], [f64; 6])>,
+    /// true: the (first) constraint object is built with from_degrees (the limits are then the radians of the rounded degree values)
+    #[serde(default)]
+    pub degrees: bool,
 }
 
 /// class of one (from,to) pair
@@ -66,7 +69,7 @@ impl Property for C18 {
     }
     fn rule(&self) -> String {
         "(from,to) per joint in [-2pi,2pi]: ordinary; wrapping with both positive / both negative / straddling zero / to==0; from-to > 2pi; from==to; 100..300 draws per constraint set with the library RNG seeded per set through the verif_hooks feature. \
-         One third of the sets reach their limits through a history (new with other limits, then update_range; per joint the earlier pair shares the lower limit, the upper limit, both or none). Width-less arcs (from>to with from==to mod 2pi) are excluded and counted. Non-trivial: sets with at least one wrapping joint whose 'to' != 0 (the branch the repository's tests never reach)."
+         Three sets in ten are built with from_degrees (degree values of the limits), the others with new. One third of the sets reach their limits through a history (new with other limits, then update_range; per joint the earlier pair shares the lower limit, the upper limit, both or none). Width-less arcs (from>to with from==to mod 2pi) are excluded and counted. Non-trivial: sets with at least one wrapping joint whose 'to' != 0 (the branch the repository's tests never reach)."
             .into()
     }
     fn assumptions(&self) -> Vec<String> {
@@ -82,13 +85,25 @@ impl Property for C18 {
         crate::selftest::arc_selftest()
     }
     fn strategy(&self, _tier: Tier) -> BoxedStrategy<Case> {
-        (prop::array::uniform6(pair_strategy()), any::<u64>(), 100u16..300, prop_oneof![2 => Just(None), 1 => (prop::array::uniform6(pair_strategy()), prop::array::uniform6(0u8..4)).prop_map(Some)])
-            .prop_map(|(p, rng_seed, draws, hist)| {
+        (prop::array::uniform6(pair_strategy()), any::<u64>(), 100u16..300, prop_oneof![2 => Just(None), 1 => (prop::array::uniform6(pair_strategy()), prop::array::uniform6(0u8..4)).prop_map(Some)], prop::bool::weighted(0.3))
+            .prop_map(|(p, rng_seed, draws, hist, degrees)| {
                 let mut from = [0.0; 6];
                 let mut to = [0.0; 6];
                 for k in 0..6 {
                     from[k] = p[k].0;
                     to[k] = p[k].1;
+                    if degrees {
+                        // what from_degrees will store for the degree value nearest to the drawn limit
+                        let (f1, t1) = (from[k].to_degrees().to_radians(), to[k].to_degrees().to_radians());
+                        // keep the shape of the pair (rounding must not turn from==to into a full-turn wrap or the reverse)
+                        if (from[k] < to[k]) == (f1 < t1) && (from[k] == to[k]) == (f1 == t1) {
+                            from[k] = f1;
+                            to[k] = t1;
+                        } else {
+                            to[k] = from[k].to_degrees().to_radians();
+                            from[k] = to[k];
+                        }
+                    }
                 }
                 let earlier = hist.map(|(q, share)| {
                     let mut f0 = [0.0; 6];
@@ -100,7 +115,7 @@ impl Property for C18 {
                     }
                     (f0, t0)
                 });
-                Case { from, to, rng_seed, draws, earlier }
+                Case { from, to, rng_seed, draws, earlier, degrees }
             })
             .boxed()
     }
@@ -123,15 +138,33 @@ impl Property for C18 {
                 nontrivial = true;
             }
         }
+        let build = |f: &[f64; 6], t: &[f64; 6]| -> Constraints {
+            if c.degrees {
+                Constraints::from_degrees(std::array::from_fn(|k| f[k].to_degrees()..=t[k].to_degrees()), 0.0)
+            } else {
+                Constraints::new(*f, *t, 0.0)
+            }
+        };
         let cons = match &c.earlier {
-            None => Constraints::new(c.from, c.to, 0.0),
+            None => build(&c.from, &c.to),
             Some((f0, t0)) => {
-                let mut x = Constraints::new(*f0, *t0, 0.0);
+                let mut x = build(f0, t0);
                 x.update_range(c.from, c.to);
                 ctx.class("constraints reached through update_range");
                 x
             }
         };
+        if c.degrees {
+            ctx.class("constraints built with from_degrees");
+            if c.earlier.is_none() {
+                // the oracle's arcs are those the object stores (C07 decides that they are the radians of the degree values)
+                let stored = (0..6).all(|k| (cons.from[k] - c.from[k]).abs() <= 1e-12 && (cons.to[k] - c.to[k]).abs() <= 1e-12);
+                if !stored {
+                    ctx.exclude("degree round trip of a limit differs by more than 1e-12 rad");
+                    return Ok(());
+                }
+            }
+        }
         rs_opw_kinematics::verif_hooks::seed_rng(c.rng_seed);
         let mut result = Ok(());
         for d in 0..c.draws {
